@@ -458,7 +458,7 @@ pub fn c15(g: &mut G) {
         g.emit(format!("sink 0 default {} - _ {}", script.join(","), show_calls(&ins_calls(&kv))));
     }
     // very many builds in one thread (anything recycled between builds), many builders alive at once
-    g.emit(format!("!scale manybuilds {}", if g.thorough { 140_000 } else { 3_000 }));
+    g.emit(format!("!scale manybuilds {}", if g.thorough { 140_000 } else { 70_000 }));
     g.emit("!scale livebuilders 100".into());
     // enough distinct nodes to overflow cache buckets (evictions): threads / processes must still agree
     let mut rng = Rng::new(g.rng.next());
